@@ -71,7 +71,7 @@ OTHER_LINES = [ln.replace("inch = 2 * ua", "inch = 5 * ua").replace("foot = 12 *
 
 EVENTS = [
     ("q", "conv"), ("q", "parse"), ("q", "root"), ("q", "base"), ("q", "base_fsys"), ("q", "compat"), ("q", "dim"), ("q", "fmt"), ("q", "compact"), ("q", "expr"), ("q", "tobase"),
-    ("define", "foo = 3 * inch"), ("define", "ms = 5 * ua"), ("define", "league = 3 * mile = lg"),
+    ("define", "foo = 3 * inch"), ("define", "ms = 5 * ua"), ("define", "league = 3 * mile = lg = kft"),  # its ALIAS kft is, until then, the prefixed reading kilo-foot
     ("define", "inch = 5 * ua = in"),  # an EXISTING unit defined again (allowed: on_redefinition='warn'): everything derived from it follows
     ("define", "span = 4 * sec"),  # ... and one defined again as a unit of ANOTHER dimension
     ("enable", "R"), ("enable", "RB"), ("disable",),
@@ -104,7 +104,7 @@ def call(fn):
 
 QUERIES = {
     "conv": lambda r: fr(r.convert(1, "foot", "ua")),
-    "parse": lambda r: sorted((k, fr(v)) for k, v in dict(r.parse_units("kilofoot / ms")._units).items()),
+    "parse": lambda r: [sorted((k, fr(v)) for k, v in dict(r.parse_units("kilofoot / ms")._units).items()), sorted(dict(r.parse_units("kft")._units)), fr(r.convert(1, "kft", "ua"))],
     "root": lambda r: [fr(r.get_root_units("mile")[0]), sorted(dict(r.get_root_units("mile")[1]._units))],
     "base": lambda r: [fr(r.get_base_units("mile")[0]), sorted(dict(r.get_base_units("mile")[1]._units))],
     "base_fsys": lambda r: [fr(r.get_base_units("mile", system="fsys")[0]), sorted(dict(r.get_base_units("mile", system="fsys")[1]._units))],
@@ -606,3 +606,4 @@ MANIFEST = {
 }
 MANIFEST["text"] += ' Group membership memo: BFS to depth 4 (5 thorough) over 16 events (membership queries on a group, on the groups using it, on the system on top and through get_compatible_units; add_units / remove_units on the lowest and middle group) against a plain set model, every query answer checked on every transition.'
 MANIFEST["text"] += ' A unit redefined with another dimensionality is among the events, with a probe on a unit defined from it.'
+MANIFEST["text"] += ' One defined unit claims as an ALIAS a spelling that until then reads as prefix + unit; the parse query asks for that spelling on both sides of the definition.'
